@@ -53,6 +53,14 @@ fn group(rep: &Report, idx: usize, base: &CCase, reps: usize, seed: u64, keep: b
                     case.spec.stdin = None;
                 }
             }
+            if base.writer != Writer::Lib && rng.chance(1, 4) {
+                // Writing over an older, larger file with --force-create must not matter either.
+                case.spec.force = true;
+                case.spec.preexisting = Some(source.len() * 2 + rng.urange(500, 100_000));
+            } else if base.writer != Writer::Lib {
+                case.spec.force = false;
+                case.spec.preexisting = None;
+            }
             inj = Injection::gen(&mut rng);
             // Make sure most repetitions really perturb the workers.
             if inj.hook_delay_us == 0 && rng.chance(2, 3) {
